@@ -18,7 +18,7 @@ def csvEmit (st : CsvSt) : CsvSt :=
 
 def csvStep (st : CsvSt) (c : Char) : CsvSt :=
   if st.escape then { st with part := c :: st.part, escape := false }
-  else if c = '\\' then { st with part := c :: st.part, escape := true }
+  else if c = '\\' && st.inQuotes then { st with part := c :: st.part, escape := true }
   else if c = '"' then { st with part := c :: st.part, inQuotes := !st.inQuotes }
   else if c = ',' && !st.inQuotes then csvEmit st
   else { st with part := c :: st.part }
